@@ -1371,6 +1371,9 @@ impl RaftLogManager {
         }
         if i > 0 {
             self.logs = self.logs.split_off(i);
+            if self.logs.is_empty() {
+                self.current_log_actor = None;
+            }
             let save_logs = self.logs.iter().map(|e| e.log_range.clone()).collect();
             let index_request = RaftIndexRequest::SaveLogs(save_logs);
             self.index_manager.as_ref().unwrap().do_send(index_request);
